@@ -137,7 +137,7 @@ CHECKS["C17"] = dict(
           "after a burst deletion a directory that once reached the limit and regained room must receive one of the next 64*k writes (k = number of directories; miss probability < 2e-28). "
           "non-trivial = some directory reached the limit and a root ended up with >= 2 directories (rotation)."),
     assumptions=_E1_ASSUME + ["directory choice is a uniform shuffle over the active directories (math/rand/v2 PCG seeded by fs_db); the only probabilistic assertion is the reuse probe, bound stated in the rule"],
-    parts=[P("seq", "seq", "TestC17", dict(checks=48, shards=8, timeout=900), dict(checks=1500, shards=16, timeout=3000))],
+    parts=[P("seq", "seq", "TestC17", dict(checks=64, shards=8, timeout=900), dict(checks=1500, shards=16, timeout=3000))],
 )
 
 CHECKS["C04"] = dict(
